@@ -4,6 +4,9 @@ package main
 // bodies with loops cut at their headers, calls replaced by contracts.
 
 import (
+	"hash/fnv"
+	"go/printer"
+	"bytes"
 	"os"
 	"sync"
 	"fmt"
@@ -582,6 +585,81 @@ func (fr *Frame) analyseLoops() {
 		}
 		li.ordinal = best
 	}
+	// reordered loops: the contract records a hash of every loop statement in
+	// source order ("loopsigs ..."); when the same loops now appear in another
+	// order, each loop keeps the number it had when the contract was written
+	if fr.fc != nil && len(fr.fc.LoopSigs) > 0 && len(fr.fc.LoopSigs) == len(stmts) {
+		cur := loopSigs(fn.Prog.Fset, stmts)
+		same := true
+		for k := range cur {
+			if cur[k] != fr.fc.LoopSigs[k] {
+				same = false
+			}
+		}
+		if !same {
+			// k-th occurrence of a hash now -> k-th occurrence of it then
+			pos := map[string][]int{}
+			for k, h := range fr.fc.LoopSigs {
+				pos[h] = append(pos[h], k)
+			}
+			remap := make([]int, len(cur))
+			seen := map[string]int{}
+			ok := true
+			for k, h := range cur {
+				if seen[h] >= len(pos[h]) {
+					ok = false
+					break
+				}
+				remap[k] = pos[h][seen[h]]
+				seen[h]++
+			}
+			if ok {
+				for _, li := range all {
+					if li.ordinal >= 0 {
+						li.ordinal = remap[li.ordinal]
+					}
+				}
+			}
+		}
+	}
+}
+
+// loopSigs: a short hash of the printed text of each loop statement
+// (comments and layout do not count).
+func loopSigs(fset *token.FileSet, stmts []ast.Node) []string {
+	var out []string
+	for _, s := range stmts {
+		var buf bytes.Buffer
+		printer.Fprint(&buf, fset, s)
+		h := fnv.New32a()
+		h.Write(buf.Bytes())
+		out = append(out, fmt.Sprintf("%08x", h.Sum32()))
+	}
+	return out
+}
+
+// loopStmts lists the loop statements of a function in source order (function literals excluded).
+func loopStmts(fn *ssa.Function) []ast.Node {
+	var stmts []ast.Node
+	var body ast.Node
+	switch s := fn.Syntax().(type) {
+	case *ast.FuncDecl:
+		body = s.Body
+	case *ast.FuncLit:
+		body = s.Body
+	}
+	if body != nil && body.(*ast.BlockStmt) != nil {
+		ast.Inspect(body, func(n ast.Node) bool {
+			switch n.(type) {
+			case *ast.FuncLit:
+				return false
+			case *ast.ForStmt, *ast.RangeStmt:
+				stmts = append(stmts, n)
+			}
+			return true
+		})
+	}
+	return stmts
 }
 
 // topological order ignoring back edges
